@@ -13,6 +13,8 @@
 (*   wtext : Seq(text)   expected footnote text of item i ("" = none)      *)
 (*   foot  : Seq(text)   footnote texts as printed                         *)
 (*   extra : number of rows that are neither metric rows nor known headers *)
+(*   refvals : Seq(limbs)  JSON v2 value of every reference group          *)
+(*   nrefrows : number of reference-group rows in the table                *)
 (***************************************************************************)
 EXTENDS Output, TLC, Json
 
@@ -59,6 +61,10 @@ Bad(c) ==
             gotH == {Append(c.headers[h].path, c.headers[h].name) : h \in 1..Len(c.headers)}
         IN IF gotH # needH THEN {"section_headers"} ELSE {})
   \cup (IF c.extra # 0 THEN {"unexpected_rows"} ELSE {})
+  \* a reference-group row is a metric row like any other (count of references, reference value 25 000):
+  \* as many of them are shown as there are groups at or above the threshold
+  \cup (IF c.nrefrows # Cardinality({g \in 1..Len(c.refvals) : Shown(RefGroupItem, c.refvals[g], c.thr)})
+        THEN {"refgroup_rows_shown_iff_threshold"} ELSE {})
   \* footnotes
   \cup (LET cites == [r \in 1..Len(c.rows) |-> c.rows[r].cite] IN
         IF ~FootnotesOK(cites, c.foot) THEN {"footnote_numbering"} ELSE {})
